@@ -553,7 +553,8 @@ class ParametersVisitor(LoggerProperty, ast.NodeVisitor):
             tree = ast.parse(source)
             assert isinstance(tree, ast.Module) and len(tree.body) == 1
             self.component_node = tree.body[0]
-            self.self_name = self.component_node.args.args[0].arg if self.parent else None
+            arg_nodes = getattr(self.component_node.args, "posonlyargs", []) + self.component_node.args.args
+            self.self_name = arg_nodes[0].arg if self.parent else None
         except Exception as ex:
             raise SourceNotAvailable(f"Problems getting source code for {self.component}: {ex}") from ex
 
